@@ -19,7 +19,7 @@ NOT_PROVED = ['the frame map is chosen and recorded by the pot_fill model (FILL 
               'from the cell_transform calls of pot_fill the transformations every generated cell went through); how a '
               'filler is moved by one transformation is C04 transformed_tree / transformed_cell; that the numbers of a TR '
               'card / inline / starred form denote the rigid motion is C04 (TR card theorems)']
-ASSUMPTIONS = ['universe graphs are acyclic', 'filler cells have non-zero importance']
+ASSUMPTIONS = ['universe graphs are acyclic']
 
 
 def plan(tier):
